@@ -237,8 +237,18 @@ template<class W> static std::vector<Upd<W> > over_stream(bool signed_mode) {
   v.push_back(U<W>(IT_I0, 1, 1)); v.push_back(U<W>(IT_I0 + 1, 2, 1)); v.push_back(U<W>(IT_S0, 1, neg));
   return v;
 }
-enum { RF_SEED, RF_HASHES, RF_BUCKETS, RF_SHAPE, RF_SMALLER, RF_N };
-static const char* const RF_NAME[] = {"seed", "hashes", "buckets", "shape", "smaller"};
+enum { RF_SEED, RF_HASHES, RF_BUCKETS, RF_SHAPE, RF_SMALLER, RF_SEEDHASH, RF_N };
+static const char* const RF_NAME[] = {"seed", "hashes", "buckets", "shape", "smaller", "seedhash"};
+// the next larger seed with the same 16-bit seed hash (the quantity stored in an image); a merge that compared seed hashes
+// instead of seeds would accept it although every row seed differs
+static uint64_t seed_hash_twin(uint64_t seed) {
+  static std::map<uint64_t, uint64_t> memo;
+  std::map<uint64_t, uint64_t>::iterator it = memo.find(seed); if (it != memo.end()) return it->second;
+  const uint16_t want = (uint16_t)(oracle::murmur3_x64_128(&seed, 8, 0).h1 & 0xffff);
+  uint64_t s2 = seed;
+  for (;;) { ++s2; if ((uint16_t)(oracle::murmur3_x64_128(&s2, 8, 0).h1 & 0xffff) == want) break; }
+  memo[seed] = s2; return s2;
+}
 // configuration of an incompatible operand; false if this variant does not exist for the shape
 static bool refusal_cfg(int j, uint8_t nh, uint32_t nb, uint64_t seed, uint8_t& h, uint32_t& b, uint64_t& sd) {
   h = nh; b = nb; sd = seed;
@@ -249,6 +259,7 @@ static bool refusal_cfg(int j, uint8_t nh, uint32_t nb, uint64_t seed, uint8_t& 
     case RF_SHAPE: // same number of cells, different shape (a merge that compared only array sizes would accept it)
       for (unsigned h2 = 1; h2 <= 8; ++h2) if (h2 != nh && ((unsigned)nh * nb) % h2 == 0 && ((unsigned)nh * nb) / h2 >= 3) { h = (uint8_t)h2; b = ((unsigned)nh * nb) / h2; return true; }
       return false;
+    case RF_SEEDHASH: sd = seed_hash_twin(seed); return true;
     case RF_SMALLER: if (nb > 3) { b = nb - 1; return true; } if (nh > 1) { h = (uint8_t)(nh - 1); return true; } return false;
   }
   return false;
